@@ -1,0 +1,352 @@
+//go:build verif
+
+package snippet
+
+import (
+	"context"
+	"strings"
+)
+
+// Contracts checked by /verif/govc (see /verif/DESIGN.md). This file is compiled only with -tags verif.
+
+// spec_concatN(xs, n): concatenation of the first n strings of xs.
+func spec_concatN(xs []string, n int) string {
+	if n <= 0 {
+		return ""
+	}
+	return spec_concatN(xs, n-1) + xs[n-1]
+}
+
+// spec_text(s, ctx): the complete rendering of a snippet — everything s.Frag(ctx) yields, concatenated.
+func spec_text(s Snippet, ctx context.Context) string {
+	return spec_concatN(spec_yielded(s.Frag(ctx)), len(spec_yielded(s.Frag(ctx))))
+}
+
+// spec_render(s, ctx): what rendering an argument contributes: nothing for nil / IsNil snippets.
+func spec_render(s Snippet, ctx context.Context) string {
+	if s == nil || s.IsNil() {
+		return ""
+	}
+	return spec_text(s, ctx)
+}
+
+//@ func Snippet.Frag
+//@   pure
+//@   note interface method: calling Frag only creates the iterator (assumed without side effects and deterministic); what the iterator yields is spec_yielded(...)
+
+//@ func Snippet.IsNil
+//@   pure
+//@   note interface method: assumed a deterministic observer without side effects
+
+//@ func Block.Frag
+//@   props C09
+//@   lit 1 yields string(v)
+
+//@ func Fragments
+//@   props C09
+//@   requires s != nil
+//@   lit 1 yields spec_render(s, ctx)
+//@   loop 1 invariant !stopped && outText == spec_concatN(ys1, it1)
+
+// spec_renderAll(cs, ctx, n): the renderings of the first n snippets of cs, in order (nil / IsNil ones contribute nothing).
+func spec_renderAll(cs []Snippet, ctx context.Context, n int) string {
+	if n <= 0 {
+		return ""
+	}
+	return spec_renderAll(cs, ctx, n-1) + spec_render(cs[n-1], ctx)
+}
+
+//@ func Snippets.Frag
+//@   props C09
+//@   lit 1 yields spec_renderAll(spec_yielded(f), ctx, len(spec_yielded(f)))
+//@   loop 1 invariant !stopped && outText == spec_renderAll(ys1, ctx, it1)
+//@   loop 2 invariant !stopped && outText == spec_renderAll(ys1, ctx, it1) + spec_concatN(ys2, it2)
+
+//@ func fn.Frag
+//@   props C09
+//@   requires f != nil
+//@   lit 1 nopanic
+//@   loop 1 invariant !stopped
+
+// ---- T(format, args): faithful substitution (C09) ----
+
+func spec_isNameRune(c rune) bool {
+	return (c >= 'A' && c <= 'Z') || (c >= 'a' && c <= 'z') || (c >= '0' && c <= '9') || c == '_'
+}
+
+// spec_nameEnd(R, i): the first index >= i whose rune is not a name rune (len(R) if there is none).
+func spec_nameEnd(R []rune, i int) int {
+	if i >= len(R) || !spec_isNameRune(R[i]) {
+		return i
+	}
+	return spec_nameEnd(R, i+1)
+}
+
+// spec_runesText(R, a, b): the text of the runes R[a:b].
+func spec_runesText(R []rune, a, b int) string {
+	if b <= a {
+		return ""
+	}
+	return spec_runesText(R, a, b-1) + string(R[b-1])
+}
+
+// spec_tmpl(R, i, args, ctx): the rendering of the template runes R[i:] — taken from the statement of C09:
+// every rune is preserved in order, except that `@name` is replaced by the complete rendering of the argument
+// bound to name (nothing if it is nil/IsNil) and ONE apostrophe directly after a placeholder is consumed;
+// a bare '@' (no name after it) is ordinary text; substituted text is never scanned again.
+func spec_tmpl(R []rune, i int, args map[string]Snippet, ctx context.Context) string {
+	if i >= len(R) {
+		return ""
+	}
+	if R[i] != '@' {
+		return string(R[i]) + spec_tmpl(R, i+1, args, ctx)
+	}
+	if spec_nameEnd(R, i+1) == i+1 {
+		return "@" + spec_tmpl(R, i+1, args, ctx)
+	}
+	if spec_nameEnd(R, i+1) < len(R) && R[spec_nameEnd(R, i+1)] == '\'' {
+		return spec_render(args[spec_runesText(R, i+1, spec_nameEnd(R, i+1))], ctx) + spec_tmpl(R, spec_nameEnd(R, i+1)+1, args, ctx)
+	}
+	return spec_render(args[spec_runesText(R, i+1, spec_nameEnd(R, i+1))], ctx) + spec_tmpl(R, spec_nameEnd(R, i+1), args, ctx)
+}
+
+// spec_missing(R, i, args): some placeholder in R[i:] names an argument that is not bound.
+func spec_missing(R []rune, i int, args map[string]Snippet) bool {
+	if i >= len(R) {
+		return false
+	}
+	if R[i] != '@' {
+		return spec_missing(R, i+1, args)
+	}
+	if spec_nameEnd(R, i+1) == i+1 {
+		return spec_missing(R, i+1, args)
+	}
+	if !spec_has(args, spec_runesText(R, i+1, spec_nameEnd(R, i+1))) {
+		return true
+	}
+	if spec_nameEnd(R, i+1) < len(R) && R[spec_nameEnd(R, i+1)] == '\'' {
+		return spec_missing(R, spec_nameEnd(R, i+1)+1, args)
+	}
+	return spec_missing(R, spec_nameEnd(R, i+1), args)
+}
+
+// spec_args: the effective argument map of a template.
+func spec_args(t *template) map[string]Snippet {
+	if t.args == nil {
+		return map[string]Snippet{}
+	}
+	return t.args
+}
+
+// spec_src: the runes a template is scanned from (leading newlines dropped).
+func spec_src(t *template) []rune { return []rune(strings.TrimLeft(t.format, "\n")) }
+
+//@ func template.Frag
+//@   props C09
+//@   requires t != nil
+//@   lit 1 yields spec_tmpl(old(spec_src(t)), 0, old(spec_args(t)), ctx)
+//@   lit 1 panics spec_missing(spec_src(t), 0, spec_args(t))
+//@   loop 1 invariant !stopped && s != nil && eq(spec_scanSrc(s), old(spec_src(t))) && eq(argSet, old(spec_args(t)))
+//@   loop 1 invariant 1 <= spec_scanPos(s) && spec_scanPos(s) <= len(spec_scanSrc(s))+1
+//@   loop 1 invariant (spec_scanPos(s) <= len(spec_scanSrc(s)) ==> c == spec_scanSrc(s)[spec_scanPos(s)-1]) && (spec_scanPos(s) == len(spec_scanSrc(s))+1 ==> c == -1)
+//@   loop 1 invariant outText + spec_tmpl(spec_scanSrc(s), spec_scanPos(s)-1, argSet, ctx) == spec_tmpl(spec_scanSrc(s), 0, argSet, ctx)
+//@   loop 1 invariant spec_missing(spec_scanSrc(s), spec_scanPos(s)-1, argSet) ==> spec_missing(spec_scanSrc(s), 0, argSet)
+//@   loop 2 invariant !stopped && s != nil && named != nil && eq(spec_scanSrc(s), old(spec_src(t))) && eq(argSet, old(spec_args(t))) && outText == entry(outText)
+//@   loop 2 invariant entry(spec_scanPos(s)) <= spec_scanPos(s) && spec_scanPos(s) <= len(spec_scanSrc(s))
+//@   loop 2 invariant named.String() == spec_runesText(spec_scanSrc(s), entry(spec_scanPos(s)), spec_scanPos(s))
+//@   loop 2 invariant spec_nameEnd(spec_scanSrc(s), entry(spec_scanPos(s))) == spec_nameEnd(spec_scanSrc(s), spec_scanPos(s))
+//@   loop 3 invariant !stopped && s != nil && eq(spec_scanSrc(s), old(spec_src(t))) && spec_scanPos(s) == entry(spec_scanPos(s))
+//@   loop 3 invariant outText == entry(outText) + spec_concatN(ys3, it3)
+//@   note the scanner is assumed to deliver []rune(strings.TrimLeft(format, "\n")) — true unless that text starts with U+FEFF, which text/scanner skips (known finding, see /verif/known_findings.json)
+//@   note the template's format and arguments are read once when iteration starts (old(...)): snippets rendered during the iteration are assumed not to mutate the template they are rendered into
+
+// ---- Sprintf(format, args...) (C09) ----
+
+//@ func ID
+//@   props C09 C11
+//@   pure
+//@   functional
+//@   heapfree
+//@   ensures result != nil
+//@   note modelled as a pure constructor: the snippet it returns is an immutable wrapper of v whose identity is not observable, so two calls with the same v are interchangeable (assumption of this model; the body trivially allocates &ident{v: v})
+
+//@ func Value
+//@   props C09 C10
+//@   pure
+//@   functional
+//@   heapfree
+//@   ensures result != nil
+//@   note modelled as a pure constructor, like ID
+
+// spec_argText(verb, a, ctx): what Sprintf prints for one consumed argument: a nested snippet as itself,
+// anything else as its identifier/type (%T, through ID) or as its Go value literal (%v, through Value).
+func spec_argText(verb rune, a any, ctx context.Context) string {
+	if x, ok := a.(Snippet); ok {
+		return spec_text(x, ctx)
+	}
+	if verb == 'T' {
+		return spec_text(ID(a), ctx)
+	}
+	return spec_text(Value(a), ctx)
+}
+
+// spec_spf(R, i, k, args, ctx): the rendering of the format runes R[i:] when k arguments have been consumed —
+// from the statement of C09: %v / %T consume the next argument, %% is a percent sign, everything else verbatim.
+func spec_spf(R []rune, i int, k int, args []any, ctx context.Context) string {
+	if i >= len(R) {
+		return ""
+	}
+	if R[i] != '%' {
+		return string(R[i]) + spec_spf(R, i+1, k, args, ctx)
+	}
+	if i+1 < len(R) && R[i+1] == '%' {
+		return "%" + spec_spf(R, i+2, k, args, ctx)
+	}
+	if i+1 < len(R) && (R[i+1] == 'T' || R[i+1] == 'v') && k < len(args) {
+		return spec_argText(R[i+1], args[k], ctx) + spec_spf(R, i+2, k+1, args, ctx)
+	}
+	return ""
+}
+
+// spec_spfPanics(R, i, k, args): Sprintf must panic: a verb other than %v %T %% (including a trailing lone '%'),
+// or %v / %T with no argument left.
+func spec_spfPanics(R []rune, i int, k int, args []any) bool {
+	if i >= len(R) {
+		return false
+	}
+	if R[i] != '%' {
+		return spec_spfPanics(R, i+1, k, args)
+	}
+	if i+1 < len(R) && R[i+1] == '%' {
+		return spec_spfPanics(R, i+2, k, args)
+	}
+	if i+1 < len(R) && (R[i+1] == 'T' || R[i+1] == 'v') && k < len(args) {
+		return spec_spfPanics(R, i+2, k+1, args)
+	}
+	return true
+}
+
+//@ func printer.Frag
+//@   props C09
+//@   requires p != nil
+//@   lit 1 yields spec_spf(old([]rune(p.fmt)), 0, 0, old(p.args), ctx)
+//@   lit 1 panics spec_spfPanics([]rune(p.fmt), 0, 0, p.args)
+//@   lit 1 stable p.args, p.fmt
+//@   loop 1 invariant !stopped && s != nil && eq(spec_scanSrc(s), old([]rune(p.fmt))) && 0 <= argIdx && argIdx <= len(p.args) && eq(p.args, old(p.args))
+//@   loop 1 invariant 1 <= spec_scanPos(s) && spec_scanPos(s) <= len(spec_scanSrc(s))+1
+//@   loop 1 invariant (spec_scanPos(s) <= len(spec_scanSrc(s)) ==> c == spec_scanSrc(s)[spec_scanPos(s)-1]) && (spec_scanPos(s) == len(spec_scanSrc(s))+1 ==> c == -1)
+//@   loop 1 invariant outText + spec_spf(spec_scanSrc(s), spec_scanPos(s)-1, argIdx, old(p.args), ctx) == spec_spf(spec_scanSrc(s), 0, 0, old(p.args), ctx)
+//@   loop 1 invariant spec_spfPanics(spec_scanSrc(s), spec_scanPos(s)-1, argIdx, old(p.args)) ==> spec_spfPanics(spec_scanSrc(s), 0, 0, old(p.args))
+//@   loop 2 invariant !stopped && s != nil && eq(p.args, old(p.args)) && eq(spec_scanSrc(s), old([]rune(p.fmt))) && spec_scanPos(s) == entry(spec_scanPos(s)) && outText == entry(outText) + spec_concatN(ys2, it2)
+//@   loop 3 invariant !stopped && s != nil && eq(p.args, old(p.args)) && eq(spec_scanSrc(s), old([]rune(p.fmt))) && spec_scanPos(s) == entry(spec_scanPos(s)) && outText == entry(outText) + spec_concatN(ys3, it3)
+//@   loop 4 invariant !stopped && s != nil && eq(p.args, old(p.args)) && eq(spec_scanSrc(s), old([]rune(p.fmt))) && spec_scanPos(s) == entry(spec_scanPos(s)) && outText == entry(outText) + spec_concatN(ys4, it4)
+//@   loop 5 invariant !stopped && s != nil && eq(p.args, old(p.args)) && eq(spec_scanSrc(s), old([]rune(p.fmt))) && spec_scanPos(s) == entry(spec_scanPos(s)) && outText == entry(outText) + spec_concatN(ys5, it5)
+//@   note `stable p.args, p.fmt`: snippets rendered during the iteration are ASSUMED not to mutate the printer they are rendered into
+
+// spec_commentLines(ls, n): the first n lines, each as a `// ` comment line, joined by newlines.
+func spec_commentLines(ls []string, n int) string {
+	if n <= 0 {
+		return ""
+	}
+	if n == 1 {
+		return "// " + ls[0]
+	}
+	return spec_commentLines(ls, n-1) + "\n" + "// " + ls[n-1]
+}
+
+func spec_comment(v string) string {
+	if v == "" {
+		return ""
+	}
+	return spec_commentLines(strings.Split(v, "\n"), len(strings.Split(v, "\n")))
+}
+
+//@ func Comment
+//@   props C09
+//@   lit 2 yields spec_comment(v)
+//@   loop 1 invariant !stopped && outText == spec_commentLines(xs1, it1)
+
+// spec_directiveArgs(args, n): " "+a for every non-empty a among the first n arguments.
+func spec_directiveArgs(args []string, n int) string {
+	if n <= 0 {
+		return ""
+	}
+	if len(args[n-1]) > 0 {
+		return spec_directiveArgs(args, n-1) + " " + args[n-1]
+	}
+	return spec_directiveArgs(args, n-1)
+}
+
+func spec_directive(directive string, args []string) string {
+	if directive == "" {
+		return ""
+	}
+	return "//go:" + directive + spec_directiveArgs(args, len(args))
+}
+
+//@ func GoDirective
+//@   props C09
+//@   lit 2 yields spec_directive(directive, args)
+//@   loop 1 invariant !stopped && outText == "//go:" + directive + spec_directiveArgs(args, it1)
+
+// ---- govc prelude: ghost helpers of the clause language (identical in every contracts_verif.go) ----
+
+func spec_old[T any](v T) T                             { return v }
+func spec_entry[T any](v T) T                           { return v }
+func spec_has[K comparable, V any](m map[K]V, k K) bool { _, ok := m[k]; return ok }
+func spec_implies(a, b bool) bool                       { return !a || b }
+func spec_iff(a, b bool) bool                           { return a == b }
+func spec_eq[T any](a, b T) bool                        { panic("ghost: structural equality") }
+func spec_all[T any](p func(T) bool) bool               { panic("ghost: unbounded quantifier") }
+func spec_any[T any](p func(T) bool) bool               { panic("ghost: unbounded quantifier") }
+func spec_fresh(p any) bool                             { panic("ghost: allocation predicate") }
+func spec_assert(c bool) {
+	if !c {
+		panic("ghost assertion failed")
+	}
+}
+func spec_assume(c bool) {}
+
+// spec_written(w): everything written so far to the writer w (ghost content of io.Writer / bytes.Buffer / strings.Builder).
+func spec_written(w any) string { panic("ghost: writer content") }
+
+// spec_scanSrc(s) / spec_scanPos(s): ghost state of a *text/scanner.Scanner: the runes it delivers and its cursor.
+func spec_scanSrc(s any) []rune { panic("ghost: scanner source") }
+func spec_scanPos(s any) int    { panic("ghost: scanner cursor") }
+
+// spec_yielded(it): the sequence of values the iterator it yields when run to completion (ghost).
+func spec_yielded[T any](it func(yield func(T) bool)) []T { panic("ghost: yielded sequence") }
+
+// bounded (executable) quantifiers for spec functions: lo <= i < hi
+func spec_existsIn(lo, hi int, p func(int) bool) bool {
+	for i := lo; i < hi; i++ {
+		if p(i) {
+			return true
+		}
+	}
+	return false
+}
+
+func spec_forallIn(lo, hi int, p func(int) bool) bool {
+	for i := lo; i < hi; i++ {
+		if !p(i) {
+			return false
+		}
+	}
+	return true
+}
+
+// spec_sortedKeys: the ascending enumeration of a map's key set (executable: insertion sort, no imports).
+func spec_sortedKeys[V any](m map[string]V) []string {
+	keys := make([]string, 0, len(m))
+	for k := range m {
+		i := len(keys)
+		keys = append(keys, k)
+		for i > 0 && keys[i-1] > k {
+			keys[i] = keys[i-1]
+			i--
+		}
+		keys[i] = k
+	}
+	return keys
+}
